@@ -300,6 +300,21 @@ pub fn check_text(text: &str, v: &J) -> CheckResult {
     if let Err(m) = agrees(&docs[0], v, "$") {
         fail!("value-differs", "through Parser::new_from_str: {m}; text: {text:?}");
     }
+    // and through the other loading mode: deferred scalar resolution, then resolving the tree
+    {
+        let mut loader = saphyr::YamlLoader::<Yaml>::default();
+        loader.early_parse(false);
+        let mut parser = saphyr_parser::Parser::new_from_str(text);
+        if let Err(e) = parser.load(&mut loader, true) {
+            fail!("load-error", "JSON text rejected with early_parse(false): {e}; text: {text:?}");
+        }
+        let mut docs = loader.into_documents();
+        ensure!(docs.len() == 1, "doc-count", "JSON text loaded as {} documents with early_parse(false); text: {text:?}", docs.len());
+        docs[0].parse_representation_recursive();
+        if let Err(m) = agrees(&docs[0], v, "$") {
+            fail!("value-differs", "with early_parse(false) + parse_representation_recursive: {m}; text: {text:?}");
+        }
+    }
     Ok(())
 }
 
